@@ -5,6 +5,7 @@ import json
 import os
 import random
 import shutil
+import signal
 import sys
 import time
 import traceback
@@ -19,16 +20,50 @@ def _hash(payload):
     return hashlib.sha1(json.dumps(canon(payload), sort_keys=True, default=repr).encode()).hexdigest()
 
 
+class CaseTimeout(BaseException):
+    """Raised by the per-case alarm: the implementation did not come back in time."""
+
+
+def _alarm(signum, frame):
+    raise CaseTimeout()
+
+
+class _limit:
+    """Wall-clock limit for one implementation / oracle call (main thread only).  A change that makes the
+    implementation loop forever must end in a report, not in a check that never returns."""
+
+    def __init__(self, seconds):
+        self.seconds = seconds
+
+    def __enter__(self):
+        self.old = signal.signal(signal.SIGALRM, _alarm)
+        signal.setitimer(signal.ITIMER_REAL, self.seconds)
+
+    def __exit__(self, *a):
+        signal.setitimer(signal.ITIMER_REAL, 0)
+        signal.signal(signal.SIGALRM, self.old)
+        return False
+
+
 def safe_impl(mod, payload):
     try:
-        return mod.impl(payload)
+        with _limit(getattr(mod, 'CASE_TIMEOUT', 60)):
+            return mod.impl(payload)
+    except CaseTimeout:
+        return Err('HarnessTimeout')
     except Exception as e:  # pylint: disable=broad-except
         return Err('HarnessCrash:' + type(e).__name__)
 
 
 def safe_oracle(mod, payload, result):
+    if isinstance(result, Err) and result.name == 'HarnessTimeout':
+        return ('impl:no-result-within-the-time-limit',
+                f'the implementation did not return within {getattr(mod, "CASE_TIMEOUT", 60)} s on this case')
     try:
-        return mod.oracle(payload, result)
+        with _limit(getattr(mod, 'CASE_TIMEOUT', 60) * 2):
+            return mod.oracle(payload, result)
+    except CaseTimeout:
+        return ('oracle:no-result-within-the-time-limit', 'the oracle (which re-runs the implementation) did not return in time')
     except Exception as e:  # pylint: disable=broad-except
         return ('oracle-crash:' + type(e).__name__, traceback.format_exc()[-800:])
 
@@ -103,7 +138,17 @@ def _run(mod, prop_id, tier, seed, replay, work, t0):
     else:
         payloads = list(mod.generate(rng, tier))
     t_impl = time.time()
-    results = [safe_impl(mod, p) for p in payloads]
+    results = []
+    timeouts = 0
+    for p in payloads:
+        r = safe_impl(mod, p)
+        results.append(r)
+        if isinstance(r, Err) and r.name == 'HarnessTimeout':
+            timeouts += 1
+            if timeouts >= 3:
+                # the implementation hangs: the violation is established, do not wait for every remaining case
+                payloads = payloads[:len(results)]
+                break
     impl_s = time.time() - t_impl
 
     # correspondence: model (in Coq) vs implementation
